@@ -36,7 +36,8 @@ def gen_call(rng):
     if k < 0.6:
         return dict(kind="chain", problem=pnr_gen.gen_problem(rng), placer=rng.choice(PLACERS),
                     seed=rng.randint(0, 10 ** 6), target=rng.choice([None, None, 0, 2, 1024]),
-                    radius=rng.choice([0, 1, 20]))
+                    radius=rng.choice([0, 1, 20]), callback=rng.choice([None, "keep", "edit"]),
+                    vertex_order=rng.random() < 0.5, partial_alloc=rng.random() < 0.3)
     if k < 0.63:
         return gen_table_call(rng) if rng.random() < 0.5 else gen_wrapper_call(rng)
     if k < 0.68:
@@ -214,7 +215,7 @@ def gen_dense_sa(rng):
                 vertices=[dict(id=i, cores=1, sdram=0) for i in ids], nets=nets, constraints=[],
                 keys=[[v, 63] for v in vals])
     probe = dict(kind="chain", problem=prob, placer=rng.choice(["sa_py", "sa_py", "sa_c"]), seed=rng.randint(0, 10 ** 6),
-                 target=None, radius=20, effort=1.0, what="dense-sa")
+                 target=None, radius=20, effort=1.0, what="dense-sa", callback=rng.choice([None, "keep", "edit"]))
     other = dict(kind="chain", problem=pnr_gen.gen_problem(rng), placer=rng.choice(PLACERS[:4]), seed=1, target=None, radius=20)
     return [other, probe]
 
@@ -269,6 +270,8 @@ def run(chk, args):
     # run A: whole history in one interpreter; run B: every call of the history alone in a fresh interpreter
     outA = [o for part in chk.impl_parallel("impl_c17.py", [[h] for h in hists], timeout=1800) for o in part]
     def fresh_counterpart(c):
+        if c["kind"] == "chain" and c.get("callback"):
+            return dict(c, callback=None)       # user code in the callback must not change the outcome
         if c["kind"] != "reuse":
             return c
         p = json.loads(json.dumps(c["problem"]))
